@@ -476,6 +476,13 @@ MUTANTS = [
     M("F1-3-no-filter", ["C02"], (FE, "            .filter(|card| !evaluator.board.contains(&Some(*card)))\n", ""), base="F1-3"),
     M("F1-3-skip-suit", ["C02"], (FE, "SuitRange::all()\n                    .into_iter()\n", "SuitRange::all()\n                    .into_iter()\n                    .skip(1)\n"), base="F1-3"),
     M("F1-3-same-rank", ["C02"], (FE, ".map(move |suit| Card::new(rank, suit))", ".map(move |suit| Card::new(crate::card::Rank::Ace, suit))"), base="F1-3"),
+    M("benign-F8-3-offsuit-comprehension", ["C05", "C12", "C10", "C06"], base="F8-3", benign=True),
+    M("F8-3-eq", ["C05", "C12"], (RP, "if high_suit != kicker_suit {", "if high_suit == kicker_suit {"), base="F8-3"),
+    M("F8-3-same-suit-twice", ["C05", "C12"], (RP, "Card::new(kicker, kicker_suit),", "Card::new(kicker, high_suit),"), base="F8-3"),
+    M("F8-3-inner-short", ["C05", "C12"], (RP, "for kicker_suit in SuitRange::all() {", "for kicker_suit in SuitRange::all().into_iter().skip(1) {"), base="F8-3"),
+    M("F8-3-push-twice", ["C05", "C12"], (RP, "                        if high_suit != kicker_suit {\n", "                        if high_suit != kicker_suit {\n                            pairs.push(CardPair::new(Card::new(high, high_suit), Card::new(kicker, kicker_suit)));\n"), base="F8-3"),
+    M("F8-3-other-vec", ["C05", "C12"], (RP, "                pairs.into_iter()\n", "                let _ = pairs;\n                Vec::new().into_iter()\n"), base="F8-3"),
+    M("benign-D6-4-offsuit-const-suits", ["C05", "C12", "C10", "C06"], base="D6-4", benign=True),
     M("benign-F3-3-computed-flush-weight", ["C01", "C07", "C08"], base="F3-3", benign=True),
     M("F3-3-unreversed", ["C01", "C07"], (MH, "1 << (12 - u8::from(card.rank()))", "1 << u8::from(card.rank())"), base="F3-3"),
     M("F3-3-off-by-one", ["C01", "C07"], (MH, "1 << (12 - u8::from(card.rank()))", "1 << (13 - u8::from(card.rank()))"), base="F3-3"),
